@@ -69,12 +69,12 @@ pub fn id_in_domain(v: &Value) -> bool {
 	}
 }
 
-pub const REGISTERED: &[&str] = &["seqadd", "echo", "add", "len", "fail", "blob", "failblob", "aecho", "becho", "bpanic", "sub", "unsub"];
+pub const REGISTERED: &[&str] = &["slow", "seqadd", "echo", "add", "len", "fail", "blob", "failblob", "aecho", "becho", "bpanic", "sub", "unsub"];
 
 /// What a (deterministic) handler answers.
 pub fn handler_model(method: &str, params: Option<&Value>, params_raw: Option<&str>) -> Want {
 	match method {
-		"echo" | "aecho" | "becho" => Want::Result(params.cloned().unwrap_or(Value::Null)),
+		"echo" | "aecho" | "becho" | "slow" => Want::Result(params.cloned().unwrap_or(Value::Null)),
 		"add" => match params.and_then(|p| p.as_array()) {
 			Some(a) if a.len() == 2 => match (a[0].as_u64(), a[1].as_u64()) {
 				(Some(x), Some(y)) if x <= u32::MAX as u64 && y <= u32::MAX as u64 => Want::Result(Value::from(x + y)),
